@@ -4,12 +4,15 @@
      C01_fragment_preservation -- semantic preservation of the backend model (Back/IR.v `lower` + the AST
      twin Pres/EmitAst.v of the text emitter Back/Emit.v) with respect to the reference interpreter
      Sem/SyltSem.v (source side) and the Lua 5.3 interpreter model Lua/LuaCore.v (target side), for the
-     computable fragment Pres/Frag.v `frag` (STAGE 4b: int/bool expressions, print, definitions, assignments
+     computable fragment Pres/Frag.v `frag` (STAGE 4c: int/bool expressions, print, definitions, assignments
      = += -= *=, if/elif/else expressions and statements, loops with break and continue, blocks, inside
      top-level functions; the outer definitions (global values and FUNCTIONS with parameters, `start` among them, in any
      order the resolver gives them),
      called by name, recursion included; the value of a function is that of its last expression or of an
-     early `ret e`, also from inside if-branches and loops).  The Lua side runs the statements of the
+     early `ret e`, also from inside if-branches and loops; LOCAL FUNCTIONS at the top level of a function body,
+     nested to any depth, that capture the variables of the enclosing functions, MUTABLE locals included -- the
+     closure and its definer share the variable and see each other's later assignments, every activation has its
+     own locals -- called by name).  The Lua side runs the statements of the
      REAL preamble.lua (Gen/GenPreamble.v, regenerated on every run) followed by the program's statements.
    WHAT IS CHECKED AT RUN TIME, per program of the tie (tools/props/c01.py):
      * component "emit_ast": LuaParse.parse_lua Lua53 (real compiler output) = ParseOk (chunk_ast code), i.e. the
@@ -359,6 +362,54 @@ Example C01_example6_lua_side :
   match lower 30 ex_prog6 with
   | Ok code => let out := LuaCore.run_block Lua53 4900 (chunk_ast code) in
                o_trace out = ["8"]%string /\ o_final out = FDone
+  | _ => False
+  end.
+Proof. vm_compute. split; reflexivity. Qed.
+
+(* ---- a seventh program (stage 4c): local functions that capture and change a mutable local of `start` ----
+     start :: fn do
+       n := 0
+       bump :: fn k: int -> int do n += k  n end
+       print(bump(3))                -- 3
+       n = n * 10                    -- the closure sees the later assignment
+       print(bump(1))                -- 31
+       twice :: fn -> int do bump(1) + bump(1) end
+       print(twice())                -- 32 + 33
+       print(n)                      -- start sees what the closures did
+     end                                                                                         *)
+Definition ex_prog7 : resolved :=
+  mkResolved
+    [mkVar 0 "print" sp0 true Const; mkVar 1 "start" sp0 true Const; mkVar 2 "== STACK ==" sp0 false Const;
+     mkVar 3 "n" sp0 false Mutable; mkVar 4 "bump" sp0 false Const; mkVar 5 "k" sp0 false Const; mkVar 6 "twice" sp0 false Const]
+    [SExternalDefinition "print" 0 Const (TImplied sp0) sp0;
+     SDefinition "start" 1 Const (TImplied sp0)
+       (EFunction "lambda" [] (TImplied sp0)
+          [SDefinition "n" 3 Mutable (TImplied sp0) (EInt 0 sp0) sp0;
+           SDefinition "bump" 4 Const (TImplied sp0)
+             (EFunction "lambda" [("k"%string, 5%N, sp0, TImplied sp0)] (TImplied sp0)
+                [SAssignment Add (ERead 3 sp0) (ERead 5 sp0) sp0;
+                 SStatementExpression (ERead 3 sp0) sp0] false sp0) sp0;
+           SStatementExpression (Resolved.ECall (ERead 0 sp0) [Resolved.ECall (ERead 4 sp0) [EInt 3 sp0] sp0] sp0) sp0;
+           SAssignment Nop (ERead 3 sp0) (EBinOp Mul (ERead 3 sp0) (EInt 10 sp0) sp0) sp0;
+           SStatementExpression (Resolved.ECall (ERead 0 sp0) [Resolved.ECall (ERead 4 sp0) [EInt 1 sp0] sp0] sp0) sp0;
+           SDefinition "twice" 6 Const (TImplied sp0)
+             (EFunction "lambda" [] (TImplied sp0)
+                [SStatementExpression (EBinOp Add (Resolved.ECall (ERead 4 sp0) [EInt 1 sp0] sp0)
+                                                  (Resolved.ECall (ERead 4 sp0) [EInt 1 sp0] sp0) sp0) sp0] false sp0) sp0;
+           SStatementExpression (Resolved.ECall (ERead 0 sp0) [Resolved.ECall (ERead 6 sp0) [] sp0] sp0) sp0;
+           SStatementExpression (Resolved.ECall (ERead 0 sp0) [ERead 3 sp0] sp0) sp0]
+          false sp0) sp0].
+
+Example C01_example7_hypotheses :
+  frag 30 ex_prog7 = true /\
+  (exists code, lower 30 ex_prog7 = Ok code) /\
+  SyltSem.run 40 ex_prog7 = mkRun ["3"; "31"; "65"; "33"]%string ODone.
+Proof. split; [vm_compute; reflexivity | split; [eexists; vm_compute; reflexivity | vm_compute; reflexivity]]. Qed.
+
+Example C01_example7_lua_side :
+  match lower 30 ex_prog7 with
+  | Ok code => let out := LuaCore.run_block Lua53 4900 (chunk_ast code) in
+               o_trace out = ["3"; "31"; "65"; "33"]%string /\ o_final out = FDone
   | _ => False
   end.
 Proof. vm_compute. split; reflexivity. Qed.
